@@ -814,6 +814,10 @@ void make_items(const Options& o, std::vector<Item>& items)
         Item it;
         it.name = text(p);
         it.body = [p] { body(p); };
+#if defined(MODE_C12)
+        if (ts.size() == 2 && Pq == 2) Pq = 3;  // two-thread programs are cheap enough for one more preemption
+        if (Pt < Pq) Pt = Pq;
+#endif
         it.bounds = hx::tier_bounds(o, Pq, Pt);
 #if defined(MODE_C13) || defined(ALLOC_FAULTS)
         // every allocation made by a client operation may fail (one failure per run; thorough: two)
